@@ -458,7 +458,7 @@ theorem stealPartial_res (w : World) (dest : Cq) (c : Chunk) (n : Nat) :
   | file fid off len t fd =>
     simp only [stealPartial]
     split
-    · exact dupFile_res w dest fid off (off + n) n fd
+    · exact dupFile_res w dest fid off (off + n) n (dupFd t fd)
     · exact Conserve.refl w _
 
 theorem moveChunk_res (w : World) (dest : Cq) (c : Chunk) :
@@ -613,7 +613,7 @@ theorem copyRange_res (w : World) (dst : Cq) (c : Chunk) (off n : Nat) :
     CStep w dst (copyRange w dst c off n) := by
   cases c with
   | mem d coff cap => exact appendMem_res w dst _
-  | file fid coff len t fd => exact dupFile_res w dst fid _ _ n fd
+  | file fid coff len t fd => exact dupFile_res w dst fid _ _ n (dupFd t fd)
 
 theorem rangeLoop_res (w : World) (dst : Cq) (cs : List Chunk) (off len : Nat) :
     CStep w dst (rangeLoop w dst cs off len) := by
@@ -731,14 +731,12 @@ theorem dropOrCloseLast_res (w : World) (q : Cq) : CStep w q (dropOrCloseLast w 
   · rename_i c hl
     split
     · exact removeEmpty_res w q
-    · cases c with
-      | mem d off cap => exact Conserve.refl w _
-      | file fid off len t fd =>
-        dsimp only
-        split
+    · split
+      · split
         · rename_i ho
           exact closeLast_res hl ho
         · exact Conserve.refl w _
+      · exact Conserve.refl w _
   · exact Conserve.refl w _
 
 theorem tempfileErr_res {w : World} {q : Cq} {e : Bool} {w' : World} {q' : Cq} {r : Bool}
